@@ -66,6 +66,7 @@ fn gen_file(w: &mut Tape, env: &EnvRef) -> Result<(Syntax, Vec<ds::Elem>, Vec<u8
         all_undefined: false,
         latin1: false,
         utf8: false,
+        other_cs: 0,
     };
     let restrict_to = |m: &[ds::Elem], _syn: Syntax| m.to_vec();
     let mut model = restrict_to(&ds::gen_dataset(w, &gcfg), syn);
